@@ -189,7 +189,9 @@ Definition del_interest (s : loop) (i : Z) (o : obj) (write : bool) : loop * obj
 
 (* onRead / onWrite: the handler the poller (err = nil) or Cancel (err = cancelled) invokes *)
 Definition on_event (s : loop) (i : Z) (o : obj) (write : bool) (err : Z) : loop * list item :=
-  let o1 := if write then with_wr o (o_wr o) (o_evW o) false else with_rd o (o_rd o) (o_evR o) false in   (* Deregister *)
+  (* Deregister, unless the other direction is still registered with the poller *)
+  let reg := if o_evR o || o_evW o then o_reg o else false in
+  let o1 := if write then with_wr o (o_wr o) (o_evW o) reg else with_rd o (o_rd o) (o_evR o) reg in
   match (if write then o_wr o else o_rd o) with
   | None => (set_obj s i o1, [])
   | Some p =>
